@@ -2,6 +2,9 @@
 from harness import common as H
 from vlib import fakes as F
 
+# private-attribute groups (vlib/layout.py) the obligations of this module depend on
+LAYOUT = ['manager', 'coord', 'task', 'bex', 'tasksem', 'sws'] + ['defer', 'legacy', 'cci']
+
 EXPLANATION = (
     'C02: the real TransferManager.download (submission task, GetObjectTask retry loop, DownloadChunkIterator, IO '
     'write tasks, DeferQueue, final tasks) runs under CrossHair over in-memory fakes with object size, threshold, '
